@@ -823,6 +823,55 @@ def literal_arguments_are_per_evaluation(col):
             _scribble(t_glom.__dict__['a'])
 
 
+def values_that_are_specs_are_data(col):
+    """"a T or Spec appearing as an index or call argument is first evaluated against the original target": the VALUE that evaluation
+    yields is what the operation gets - also when that value is itself a T expression, a Spec, a Val or a container holding one (a
+    target that stores specs, e.g. a table of field extractors).  Data is never evaluated a second time."""
+    from glom import Spec, Val
+    collect = lambda *a, **k: (a, k)
+    stored_t, stored_spec, stored_val = T['w'], Spec('w'), Val(3)
+    mk = lambda: {'f': collect, 'w': 'WVAL', 'vt': stored_t, 'vs': stored_spec, 'vv': stored_val, 'lst': [stored_t], 'dct': {'k': stored_t},
+                  'obj': Helper() if False else None, 'tbl': {stored_t: 'keyed by a T object'}}
+    cases = [
+        ('call positional <- stored T', lambda: T['f'](T['vt']), lambda t: t['f'](t['vt'])),
+        ('call keyword <- stored T', lambda: T['f'](k=T['vt']), lambda t: t['f'](k=t['vt'])),
+        ('call positional <- stored Spec', lambda: T['f'](T['vs']), lambda t: t['f'](t['vs'])),
+        ('call positional <- stored Val', lambda: T['f'](T['vv']), lambda t: t['f'](t['vv'])),
+        ('call positional <- stored list holding a T', lambda: T['f'](T['lst']), lambda t: t['f'](t['lst'])),
+        ('call keyword <- stored dict holding a T', lambda: T['f'](k=T['dct']), lambda t: t['f'](k=t['dct'])),
+        ('call with a literal list around a nested T', lambda: T['f']([T['vt'], 1]), lambda t: t['f']([t['vt'], 1])),
+        ('call <- Spec argument yielding a stored T', lambda: T['f'](Spec('vt')), lambda t: t['f'](t['vt'])),
+        ('two calls in a row', lambda: T['f'](T['vt'])[0][0], lambda t: t['f'](t['vt'])[0][0]),
+        ('index <- stored T used as key', lambda: T['tbl'][T['vt']], lambda t: t['tbl'][t['vt']]),
+        ('method call <- stored T', lambda: T['lst'].index(T['vt']), lambda t: t['lst'].index(t['vt'])),
+        ('dict.get default <- stored T', lambda: T['dct'].get('zz', T['vt']), lambda t: t['dct'].get('zz', t['vt'])),
+    ]
+    for desc, mk_spec, py in cases:
+        t = mk()
+        want = call(py, t)
+        got = call(G, t, mk_spec())
+        col.case(('stored-specs-are-data', desc), True)
+        col.count('glom_evaluations')
+        col.count('arguments_whose_value_is_a_spec_object')
+        ok = got.ok == want.ok and (not got.ok or _same_deep(got.value, want.value))
+        if not ok:
+            col.violation('C02/argument-value-evaluated-again:' + desc.split(' <-')[0].replace(' ', '-'),
+                          '%s: glom gives %r, the same operations applied directly give %r' % (desc, got, want), None)
+
+
+def _same_deep(a, b):
+    """identity for spec-like leaves (T objects define == structurally only on Path), equality + type elsewhere"""
+    if type(a) is not type(b):
+        return False
+    if isinstance(a, (tuple, list)):
+        return len(a) == len(b) and all(_same_deep(x, y) for x, y in zip(a, b))
+    if isinstance(a, dict):
+        return list(a) == list(b) and all(_same_deep(a[k], b[k]) for k in a)
+    if hasattr(a, 'glomit') or type(a) is type(T):
+        return a is b
+    return a == b
+
+
 def run(ctx):
     col, rng = ctx.col, ctx.rng
     col.require('glom_evaluations', 500)
@@ -832,6 +881,7 @@ def run(ctx):
     if ctx.shard == 0:
         systematic(col, rng)
         literal_arguments_are_per_evaluation(col)
+        values_that_are_specs_are_data(col)
     for i in range(ctx.n(15000, 80000)):
         build = target_recipe(rng)
         e = gen_expr(rng, build, want_fail=rng.random() < 0.4)
